@@ -81,6 +81,9 @@ type trace struct {
 	noECHAttempt bool
 }
 
+// errAttemptFailed is what every failing attempt of the fake DialFunc wraps: the error Dial returns must still carry it
+var errAttemptFailed = errors.New("c18: connection refused (sentinel)")
+
 func addrOf(i int) string { return fmt.Sprintf("192.0.2.%d:443", i+1) }
 
 // run executes one scenario under one schedule.
@@ -220,7 +223,7 @@ func run(sc scenario, choose vs.Chooser, traceOn bool) (*trace, *vs.Sched) {
 				return a.conn, nil
 			}
 			a.result = "fail"
-			return nil, fmt.Errorf("attempt %d failed", ti)
+			return nil, fmt.Errorf("attempt %d failed: %w", ti, errAttemptFailed)
 		}
 		ctx, cancel := vs.WithCancel(context.Background())
 		// the caller's context outlives the call by far (a request context, not one made for this Dial): whatever Dial leaves
@@ -278,6 +281,16 @@ func monitor(sc scenario, tr *trace, s *vs.Sched) (key, what string) {
 	}
 	if tr.noECHAttempt {
 		return "attempt-without-ech", "RequireECH is set and DialFunc was called with a TLS config that has no ECH config list"
+	}
+	// zero values stand for the documented defaults: MaxConcurrency 3, ConcurrencyDelay 1 s, Timeout 30 s
+	if sc.MaxConc == 0 {
+		sc.MaxConc = 3
+	}
+	if sc.Delay == 0 {
+		sc.Delay = 1
+	}
+	if sc.Timeout == 0 {
+		sc.Timeout = 30
 	}
 	delay, timeout := time.Duration(sc.Delay)*unit, time.Duration(sc.Timeout)*unit
 	// 1. order
@@ -431,6 +444,11 @@ func monitor(sc scenario, tr *trace, s *vs.Sched) (key, what string) {
 					return "no-address-error", "want 'no address', got " + tr.retErr.Error()
 				}
 			} else {
+				for _, a := range tr.attempts {
+					if a.result == "fail" && a.target >= 0 && !errors.Is(tr.retErr, errAttemptFailed) {
+						return "joined-errors-flattened", fmt.Sprintf("the attempt for target %d failed with an error that wraps a sentinel; errors.Is on the error Dial returned (%v) does not find it: the attempts' errors were joined as text", a.target, tr.retErr)
+					}
+				}
 				u, ok := tr.retErr.(interface{ Unwrap() []error })
 				if !ok || len(u.Unwrap()) != len(sc.Plans) {
 					n := -1
@@ -511,6 +529,20 @@ func scenarios(thorough bool) []scenario {
 					}
 				}
 			}
+		}
+	}
+	// the documented defaults (zero values): MaxConcurrency 3, ConcurrencyDelay 1 s, Timeout 30 s
+	for _, plans := range [][]plan{
+		{{"hang", 0}, {"hang", 0}, {"hang", 0}, {"ok", 1}},
+		{{"fail", 1}, {"hang", 0}, {"ok", 3}},
+		{{"hang", 0}, {"fail", 3}, {"fail", 0}},
+		{{"hang", 0}},
+		{{"ok", 3}, {"ok", 1}},
+	} {
+		for _, c := range []int{-1, 4} {
+			out = append(out, scenario{Plans: plans, CancelAt: c})
+			out = append(out, scenario{Plans: plans, CancelAt: c, MaxConc: 2})
+			out = append(out, scenario{Plans: plans, CancelAt: c, Delay: 2, Timeout: 5})
 		}
 	}
 	// RequireECH: 2..maxT targets from one resolution result, at least one of them without an ech parameter
